@@ -1,3 +1,99 @@
 import Driver.Common
-/-! Driver for property C04 (stub: the model for this property is not built yet). -/
-def main : IO Unit := Driver.run (fun (s : Unit) _ => (s, "unimplemented")) ()
+import TxdbusModel.Proto.Framing
+/-!
+Driver for property C04: runs the code model of `BasicDBusProtocol.dataReceived` over a list of reads.
+
+Input line (one scenario per line, the driver is stateless):
+
+    R <client 0|1> <authenticated 0|1> <script> <read> <read> ...
+
+  script   the outcomes of the (abstract) authenticator for the lines it is handed, in order:
+           a word over c (cont) s (success) f (failed), "-" for none; after the script: cont
+  read     hex of one `dataReceived` argument ("-" = the empty read)
+
+Output line: the effects in order, `M<hex>` raw message, `L<hex>` auth line, `X` loseConnection,
+`!` exception, then `| <buffer hex> <nextMsgLen> <big 0|1> <authenticated> <firstByte> <closed>`.
+
+    O <hex>            the pre-repair recursive binary branch on one read: `<n messages> <depth>`
+-/
+open Txdbus.Proto
+
+namespace DrvC04
+
+def hexVal (c : Char) : Option Nat :=
+  if '0' ≤ c ∧ c ≤ '9' then some (c.toNat - 48)
+  else if 'a' ≤ c ∧ c ≤ 'f' then some (c.toNat - 87)
+  else if 'A' ≤ c ∧ c ≤ 'F' then some (c.toNat - 55)
+  else none
+
+/-- Tail-recursive hex parser (reads of a megabyte must not overflow the stack). -/
+def parseHexGo : List Char → List UInt8 → Option (List UInt8)
+  | [], acc => some acc.reverse
+  | [_], _ => none
+  | a :: b :: t, acc =>
+    match hexVal a, hexVal b with
+    | some x, some y => parseHexGo t (UInt8.ofNat (x * 16 + y) :: acc)
+    | _, _ => none
+
+def parseHex (s : String) : Option (List UInt8) :=
+  if s == "-" then some [] else parseHexGo s.toList []
+
+def pushHex (out : String) (bs : List UInt8) : String :=
+  if bs.isEmpty then out.push '-' else
+  bs.foldl (fun o b => (o.push (Driver.nibble (b.toNat / 16))).push (Driver.nibble (b.toNat % 16))) out
+
+def b01 (b : Bool) : String := if b then "1" else "0"
+
+/-- The scripted authenticator: its state is the list of outcomes still to come. -/
+def scripted : Auth (List AuthRes) :=
+  ⟨fun st _ => match st with
+    | [] => ([], .cont)
+    | r :: t => (t, r)⟩
+
+def parseScript (s : String) : Option (List AuthRes) :=
+  if s == "-" then some [] else
+  s.toList.mapM fun c =>
+    if c == 'c' then some AuthRes.cont else if c == 's' then some .success
+    else if c == 'f' then some .failed else none
+
+def showEffects (es : List Effect) : String :=
+  es.foldl (fun o e =>
+    match e with
+    | .msg m => (pushHex (o.push 'M') m).push ' '
+    | .line l => (pushHex (o.push 'L') l).push ' '
+    | .lose => o ++ "X "
+    | .crash => o ++ "! ") ""
+
+def mapMTR {α β : Type} (f : α → Option β) : List α → List β → Option (List β)
+  | [], acc => some acc.reverse
+  | a :: t, acc => match f a with
+    | some b => mapMTR f t (b :: acc)
+    | none => none
+
+def handle (line : String) : String :=
+  match Driver.words line with
+  | "R" :: c :: a :: sc :: reads =>
+    match parseScript sc, mapMTR parseHex reads [] with
+    | some script, some rs =>
+      let s0 : St (List AuthRes) :=
+        { client := c == "1", buffer := [], nextMsgLen := 0, bigEndian := false,
+          authenticated := a == "1", firstByte := true, closed := false, auth := script }
+      let r := run scripted s0 rs
+      let s := r.1
+      let o := showEffects r.2
+      let o := pushHex (o ++ "| ") s.buffer
+      o ++ " " ++ toString s.nextMsgLen ++ " " ++ b01 s.bigEndian ++ " " ++ b01 s.authenticated
+        ++ " " ++ b01 s.firstByte ++ " " ++ b01 s.closed
+    | _, _ => "error bad-input"
+  | ["O", h] =>
+    match parseHex h with
+    | some bs =>
+      match binRecOld (bs.length + 2) bs 0 false 1 with
+      | some (_, ms, d) => toString ms.length ++ " " ++ toString d
+      | none => "error fuel"
+    | none => "error bad-input"
+  | _ => "error bad-command"
+
+end DrvC04
+
+def main : IO Unit := Driver.run (fun (s : Unit) line => (s, DrvC04.handle line)) ()
